@@ -180,6 +180,8 @@ def blur_keeps_length(ck):
                 t = t[1]
             elif t[0] in ("lt", "le") and len(t) == 2:
                 t = t[1]
+            elif t[0] == "poly" and len(t[1]) == 1 and len(t[1][0][0]) == 1:
+                t = t[1][0][0][0]           # +-x compared with 0
             else:
                 return t
 
@@ -194,6 +196,9 @@ def blur_keeps_length(ck):
             counted = t[0] == "comp" and len(t[3]) == 1 and not t[3][0][1] and t[3][0][0] == T.mk_call("range", [n_len])
             conv = [x for x in T.subterms(pa.value) if x[0] == "call" and x[1] in ("numpy.convolve", "numpy.correlate",
                                                                                   "scipy.signal.convolve", "scipy.signal.fftconvolve")]
+            if not cut and t[0] == "slice" and t[4] in (C(None), C(1)) and T.p_sub(t[3], t[2]) == n_len and conv and \
+                    conv[0][1] == "numpy.convolve" and "mode" not in dict(conv[0][3]) and len(conv[0][2]) == 2:
+                cut = True          # full convolution (len + kernel - 1 samples) cut to [a : a + len(vector)]
             if cut or counted:
                 ck.judge(True, "C16.7", short(fn) + ":length", w, "the blurred vector has len(vector) samples", found=T.show(t)[-60:])
             elif conv:
